@@ -260,3 +260,126 @@ pub proof fn lemma_cs_is_csqf(p: Seq<u8>, from: int)
     if from < p.len() && !cls(C_CS, p[from]) { lemma_cs_is_csqf(p, from + 1); }
 }
 } // verus!
+
+verus! {
+/// the path that must result from set_authority: a relative path gains '/' when an authority
+/// appears, a path starting with "//" gains "/." when the authority disappears
+pub open spec fn set_auth_path(old_au: Option<Seq<u8>>, new_some: bool, p: Seq<u8>) -> Seq<u8> {
+    if new_some { if old_au is Some || (p.len() > 0 && p[0] == 47) { p } else { make_abs(p) } }
+    else if old_au is Some && starts_dslash(p) { shield_dslash(p) }
+    else { p }
+}
+pub proof fn lemma_set_auth_path(sch: Option<Seq<u8>>, old_au: Option<Seq<u8>>, new_some: bool, p: Seq<u8>)
+    requires path_fits(sch, old_au, p),
+    ensures
+        new_some ==> path_fits(sch, Some(sq0()), set_auth_path(old_au, new_some, p)),
+        !new_some ==> path_fits(sch, None, set_auth_path(old_au, new_some, p)),
+{
+    let r = set_auth_path(old_au, new_some, p);
+    if new_some {
+        if !(old_au is Some || (p.len() > 0 && p[0] == 47)) { assert(r[0] == 47); assert(forall|j: int| 1 <= j < r.len() ==> #[trigger] r[j] == p[j - 1]); }
+    } else if old_au is Some {
+        if starts_dslash(p) {
+            assert(r[0] == 47 && r[1] == 46);
+            assert(forall|j: int| 2 <= j < r.len() ==> #[trigger] r[j] == p[j - 2]);
+            lemma_first_of_is(r, 0, C_CSQF, 0);
+        } else {
+            if p.len() > 0 { lemma_first_of_is(p, 0, C_CSQF, 0); }
+        }
+    }
+}
+} // verus!
+verus! {
+/// what set_authority does to the text, case by case (as one splice of the old text)
+pub open spec fn set_auth_text(o: Seq<u8>, na: Option<Seq<u8>>) -> Seq<u8> {
+    let h = x_hier(o); let ae = x_auth_end(o); let p = r_path(o);
+    match na {
+        Some(x) => if x_has_auth(o) { splice(o, h + 2, ae, x) }
+                   else if p.len() > 0 && p[0] == 47 { splice(o, h, h, sq2(47, 47) + x) }
+                   else { splice(o, h, h, sq2(47, 47) + x + sq1(47)) },
+        None => if x_has_auth(o) { if starts_dslash(p) { splice(o, h, ae, sq2(47, 46)) } else { splice(o, h, ae, sq0()) } } else { o },
+    }
+}
+pub open spec fn set_auth_post(o: Seq<u8>, n: Seq<u8>, na: Option<Seq<u8>>) -> bool {
+    set_post(o, n, r_scheme(o), na, set_auth_path(r_auth(o), na is Some, r_path(o)), r_query(o), r_frag(o))
+}
+proof fn lemma_sa_tail(o: Seq<u8>)
+    requires ref_shape(o),
+    ensures
+        o.subrange(x_auth_end(o), o.len() as int) =~= r_path(o) + opt_suffix(63, r_query(o)) + opt_suffix(35, r_frag(o)),
+        o.subrange(x_path_end(o), o.len() as int) =~= opt_suffix(63, r_query(o)) + opt_suffix(35, r_frag(o)),
+{
+    lemma_ref_pieces(o);
+    let ae = x_auth_end(o); let pe = x_path_end(o); let qe = x_query_end(o);
+    assert(o.subrange(ae, o.len() as int) =~= o.subrange(ae, pe) + o.subrange(pe, qe) + o.subrange(qe, o.len() as int));
+    assert(o.subrange(pe, o.len() as int) =~= o.subrange(pe, qe) + o.subrange(qe, o.len() as int));
+}
+proof fn lemma_sa_some_has(o: Seq<u8>, x: Seq<u8>)
+    requires ref_shape(o), authority_shape(x), x_has_auth(o),
+    ensures set_auth_post(o, set_auth_text(o, Some(x)), Some(x)),
+{
+    lemma_ref_pieces(o); lemma_sa_tail(o);
+    let h = x_hier(o); let ae = x_auth_end(o);
+    let n = set_auth_text(o, Some(x));
+    assert(o.subrange(0, h + 2) =~= o.subrange(0, h) + sq2(47, 47));
+    assert(n =~= opt_prefix(r_scheme(o), 58) + opt_auth(Some(x)) + r_path(o) + opt_suffix(63, r_query(o)) + opt_suffix(35, r_frag(o)));
+    lemma_set_auth_path(r_scheme(o), r_auth(o), true, r_path(o));
+    lemma_set_pieces(o, n, r_scheme(o), Some(x), r_path(o), r_query(o), r_frag(o));
+}
+proof fn lemma_sa_some_abs(o: Seq<u8>, x: Seq<u8>)
+    requires ref_shape(o), authority_shape(x), !x_has_auth(o), r_path(o).len() > 0 && r_path(o)[0] == 47,
+    ensures set_auth_post(o, set_auth_text(o, Some(x)), Some(x)),
+{
+    lemma_ref_pieces(o); lemma_sa_tail(o);
+    let h = x_hier(o);
+    let n = set_auth_text(o, Some(x));
+    assert(n =~= opt_prefix(r_scheme(o), 58) + opt_auth(Some(x)) + r_path(o) + opt_suffix(63, r_query(o)) + opt_suffix(35, r_frag(o)));
+    lemma_set_auth_path(r_scheme(o), r_auth(o), true, r_path(o));
+    lemma_set_pieces(o, n, r_scheme(o), Some(x), r_path(o), r_query(o), r_frag(o));
+}
+proof fn lemma_sa_some_rel(o: Seq<u8>, x: Seq<u8>)
+    requires ref_shape(o), authority_shape(x), !x_has_auth(o), !(r_path(o).len() > 0 && r_path(o)[0] == 47),
+    ensures set_auth_post(o, set_auth_text(o, Some(x)), Some(x)),
+{
+    lemma_ref_pieces(o); lemma_sa_tail(o);
+    let h = x_hier(o);
+    let n = set_auth_text(o, Some(x));
+    let np = make_abs(r_path(o));
+    assert(n =~= opt_prefix(r_scheme(o), 58) + opt_auth(Some(x)) + np + opt_suffix(63, r_query(o)) + opt_suffix(35, r_frag(o)));
+    lemma_set_auth_path(r_scheme(o), r_auth(o), true, r_path(o));
+    lemma_set_pieces(o, n, r_scheme(o), Some(x), np, r_query(o), r_frag(o));
+}
+proof fn lemma_sa_none(o: Seq<u8>)
+    requires ref_shape(o),
+    ensures set_auth_post(o, set_auth_text(o, None), None),
+{
+    lemma_ref_pieces(o); lemma_sa_tail(o);
+    let h = x_hier(o); let ae = x_auth_end(o);
+    let n = set_auth_text(o, None);
+    let np = set_auth_path(r_auth(o), false, r_path(o));
+    lemma_set_auth_path(r_scheme(o), r_auth(o), false, r_path(o));
+    if x_has_auth(o) {
+        if starts_dslash(r_path(o)) {
+            assert(n =~= opt_prefix(r_scheme(o), 58) + opt_auth(None) + np + opt_suffix(63, r_query(o)) + opt_suffix(35, r_frag(o)));
+        } else {
+            assert(n =~= opt_prefix(r_scheme(o), 58) + opt_auth(None) + np + opt_suffix(63, r_query(o)) + opt_suffix(35, r_frag(o)));
+        }
+    } else {
+        assert(n =~= opt_prefix(r_scheme(o), 58) + opt_auth(None) + np + opt_suffix(63, r_query(o)) + opt_suffix(35, r_frag(o)));
+    }
+    lemma_set_pieces(o, n, r_scheme(o), None, np, r_query(o), r_frag(o));
+}
+pub proof fn lemma_set_authority(o: Seq<u8>, na: Option<Seq<u8>>)
+    requires ref_shape(o), opt_ok(na, |x: Seq<u8>| authority_shape(x)),
+    ensures set_auth_post(o, set_auth_text(o, na), na),
+{
+    match na {
+        Some(x) => {
+            if x_has_auth(o) { lemma_sa_some_has(o, x); }
+            else if r_path(o).len() > 0 && r_path(o)[0] == 47 { lemma_sa_some_abs(o, x); }
+            else { lemma_sa_some_rel(o, x); }
+        },
+        None => { lemma_sa_none(o); },
+    }
+}
+} // verus!
